@@ -589,6 +589,12 @@ def hook_signature(events: list[dict], h: int, direction: str, obs_row: list[int
             earlier = [(m[h - 1] if len(m) >= h else [0] * len(now)) for m in expect[: j - 1]]
             if any(r == obs_row and r != now for r in earlier):
                 return "C19:generate:not-the-hooks-in-force-at-this-generation:%s" % direction
+            if direction == "missing" and expect is not None and j >= 1 and o and not e["n"].endswith("_case"):
+                # an earlier hook of the same name on the same dispatcher does not apply to this operation
+                same = [k for k in range(1, h) if regs[k - 1]["n"] == e["n"]
+                        and ("schema" if regs[k - 1]["r"] == "schema_hooks" else regs[k - 1]["r"]) == scope]
+                if any(len(expect[j - 1]) >= k and expect[j - 1][k - 1][o - 1] == 0 for k in same):
+                    return "C19:dispatch:hook-dropped-after-non-matching-hook-of-the-same-name"
             # every wrong cell of the row carries the answer of the same-label operation of the other schema
             if ops is not None and scope == "global":  # only global extensions concern both schemas
                 wrong = [q for q in range(1, len(now) + 1) if obs_row[q - 1] != now[q - 1]]
@@ -761,9 +767,9 @@ def run(ctx: Ctx) -> Outcome:
     global _CAT
     out = Outcome()
     rng = random.Random(ctx.seed)
-    hook_cfgs = ["Hooks_quick.cfg", "Hooks_gen_quick.cfg", "Hooks_neg_quick.cfg"] if ctx.quick else [
-        "Hooks_thorough_a.cfg", "Hooks_thorough_b.cfg", "Hooks_gen_thorough.cfg", "Hooks_neg_thorough.cfg"]
-    auth_cfgs = ["HooksAuth_quick.cfg"] if ctx.quick else ["HooksAuth_thorough.cfg", "HooksAuth_thorough3.cfg"]
+    hook_cfgs = ["Hooks_quick.cfg", "Hooks_same.cfg", "Hooks_gen_quick.cfg", "Hooks_neg_quick.cfg"] if ctx.quick else [
+        "Hooks_thorough_a.cfg", "Hooks_thorough_b.cfg", "Hooks_same.cfg", "Hooks_gen_thorough.cfg", "Hooks_neg_thorough.cfg"]
+    auth_cfgs = ["HooksAuth_quick.cfg"] if ctx.quick else ["HooksAuth_thorough.cfg"]
     states = transitions = 0
     timings: dict = {}
     judged_total = 0
